@@ -540,6 +540,47 @@ func c01R4(c *Ctx, r *Report) {
 		return
 	}
 	n := 0
+	// wrappers: functions that receive the current value as a parameter, lower the right-hand side (also a
+	// parameter) themselves and combine the two. The argument is evaluated before the call, so for a wrapper
+	// the obligation moves to its call sites: the argument is a value read before the call.
+	wrappers := map[*types.Func]int{} // wrapper -> index of the `cur` parameter
+	for _, fn := range c.AllFns(pkgMIRGen) {
+		info := fn.Info()
+		sig := fn.Obj.Type().(*types.Signature)
+		for _, call := range callsIn(fn.Decl.Body, false) {
+			if !isCallTo(info, call, emitBin.Obj) || len(call.Args) < 3 {
+				continue
+			}
+			o := objOf(info, call.Args[1])
+			if o == nil || !isParamOf(fn, o) {
+				continue
+			}
+			lowersParam := nodeCallsPred(fn.Decl.Body, func(cl *ast.CallExpr) bool {
+				if !isCallTo(info, cl, lower.Obj) || len(cl.Args) != 1 {
+					return false
+				}
+				po := objOf(info, cl.Args[0])
+				return po != nil && isParamOf(fn, po)
+			}) != nil
+			if !lowersParam {
+				continue
+			}
+			for i := 0; i < sig.Params().Len(); i++ {
+				if sig.Params().At(i) == o {
+					wrappers[fn.Obj] = i
+				}
+			}
+			r.OK(rule, fn.Name(), "the current value is a parameter", c.pos(fn.Decl.Pos()), "evaluated by the caller before the right-hand side is lowered here")
+		}
+	}
+	wrapperCall := func(info *types.Info, cl *ast.CallExpr) (int, bool) {
+		for w, idx := range wrappers {
+			if isCallTo(info, cl, w) && len(cl.Args) > idx {
+				return idx, true
+			}
+		}
+		return 0, false
+	}
 	for _, fn := range c.AllFns(pkgMIRGen) {
 		info := fn.Info()
 		curVars := map[types.Object]bool{}
@@ -549,12 +590,22 @@ func c01R4(c *Ctx, r *Report) {
 					curVars[o] = true
 				}
 			}
+			if idx, ok := wrapperCall(info, call); ok {
+				if o := objOf(info, call.Args[idx]); o != nil {
+					curVars[o] = true
+				} else {
+					r.Fail(rule, fn.Name(), "current value passed to "+exprStr(call.Fun)+" is a variable", c.pos(call.Pos()), "the current value of a compound assignment is not a variable whose defining read can be ordered against the right-hand side")
+				}
+			}
 		}
 		if len(curVars) == 0 {
 			continue
 		}
 		isRhsLower := func(nd ast.Node) bool {
 			return nodeCallsPred(nd, func(cl *ast.CallExpr) bool {
+				if _, ok := wrapperCall(info, cl); ok {
+					return true // the right-hand side is lowered inside the wrapper
+				}
 				if !isCallTo(info, cl, lower.Obj) || len(cl.Args) != 1 {
 					return false
 				}
